@@ -85,15 +85,62 @@ def server_close_vs_send():
     return err
 
 
+def overlapping_closes_then_send():
+    """B's close() has passed its is_closing test and is stopped just before it writes; A's close() runs to completion;
+    B resumes (its write is refused); then the application sends and closes again"""
+    ws, sock, gen = connected()
+    gate = sched.Gate(timeout=2)
+    body = sched.trace_gate(lambda: ws.close(1001, b'B'), 'close', '_send_close(', gate, 'websocket.py')
+    b = sched.run_thread(body, 'B')
+    gate.reached.wait(2)
+    a = sched.run_thread(lambda: ws.close(1000, b'A'), 'A')
+    a.join(2)
+    gate.go.set()
+    b.join(2)
+    late = []
+    for call in (lambda: ws.send_text('late'), lambda: ws.send_binary(b'late'), lambda: ws.close(1002, b'again')):
+        try:
+            call()
+        except errors.WebSocketError:
+            pass
+        except Exception as e:       # noqa
+            late.append(repr(e))
+    err = judge(sock, None)
+    if err is None and late:
+        err = 'a call after the Close raised %s instead of a WebSocketError' % late[0]
+    gen.close()
+    return err
+
+
+def send_held_before_the_lock():
+    """B's send_text() is held on the line that takes the session lock in write(); A's close() completes; B resumes"""
+    ws, sock, gen = connected()
+    gate = sched.Gate(timeout=2)
+    body = sched.trace_gate(lambda: ws.send_text('late'), 'write', 'self._lock', gate, 'session.py')
+    b = sched.run_thread(body, 'B')
+    gate.reached.wait(2)
+    a = sched.run_thread(lambda: ws.close(1000, b'A'), 'A')
+    a.join(2)
+    gate.go.set()
+    b.join(2)
+    err = judge(sock, None)
+    if err is None and 'error' in b.box and not isinstance(b.box['error'], errors.WebSocketError):
+        err = 'the losing send raised %r instead of a WebSocketError' % (b.box['error'],)
+    gen.close()
+    return err
+
+
 def replay(obligation, extra):
     for name, fn in (('close() on thread A is interrupted right after its Close frame was written; thread B calls send_text()', lambda: close_vs(lambda ws: ws.send_text('late'))),
                      ('close() on thread A interrupted after its Close frame was written; thread B calls close()', lambda: close_vs(lambda ws: ws.close(1001, b'other'))),
                      ('close() on thread A interrupted after its Close frame was written; thread B calls send_ping()', lambda: close_vs(lambda ws: ws.send_ping(b'p'))),
-                     ('event loop processing the server Close reply is interrupted between its two flag updates; application thread calls send_text()', server_close_vs_send)):
+                     ('event loop processing the server Close reply is interrupted between its two flag updates; application thread calls send_text()', server_close_vs_send),
+                     ('send_text() on thread B is held on the line of write() that takes the session lock; close() on thread A completes; B resumes', send_held_before_the_lock),
+                     ('close() on thread B has passed its is_closing test and is held before it writes; close() on thread A completes; B resumes; then send_text(), send_binary(), close()', overlapping_closes_then_send)):
         err = fn()
         if err:
             return dict(found=True, input='schedule: ' + name, expected='at most one Close frame, no data frame after it, the loser gets a WebSocketError', observed=err)
-    return dict(found=False, tried='4 forced schedules (close vs send_text / close / send_ping; server-Close processing vs send_text)')
+    return dict(found=False, tried='6 forced schedules (close vs send_text / close / send_ping; server-Close processing vs send_text; send held before the lock; overlapping closes then sends)')
 
 
 def known_finding(kf):
